@@ -470,6 +470,16 @@ func (fr *Frame) execStmt(st *State, s ast.Stmt) (res []Outcome) {
 			return normal(st)
 		}
 		e.dropped["go "+exprString(s.Call.Fun)+"(...) [spawn: verified separately]"] = true
+		if fr.top != nil && fr.top.fc != nil && fr.top.fc.Options["calllog"] != "" {
+			// `option calllog f`: the spawn of a goroutine running f is recorded like a call of f
+			if fn := e.staticCallee(fr.info, s.Call); fn != nil {
+				var args []*Term
+				for _, a := range s.Call.Args {
+					args = append(args, fr.eval(st, a))
+				}
+				fr.logCall(st, fn, args)
+			}
+		}
 		return normal(st)
 	case *ast.SendStmt:
 		fr.execSend(st, s)
@@ -1362,9 +1372,50 @@ func (e *Engine) collectMods(info *types.Info, n ast.Node, ms *modSet, visited m
 			}
 		case *ast.CallExpr:
 			e.callMods(info, s, ms, visited, depth)
+			e.logMods(info, s, ms, depth)
+		case *ast.SendStmt:
+			// a send appends to the channel log (option chanlog)
+			ms.heap["ghost:chanSendN"] = IntSort
+			ms.heap["ghost:chanSendCh"] = ArrSort(IntSort, IntSort)
+			ms.heap["ghost:chanSendVal"] = ArrSort(IntSort, IntSort)
+		case *ast.GoStmt:
+			e.logMods(info, s.Call, ms, depth)
 		}
 		return true
 	})
+}
+
+// logMods: the function-local ghost logs (option calllog / retlog / fvlog of the function under contract) that a
+// call written in that function appends to: they change in a loop that contains the call.
+func (e *Engine) logMods(info *types.Info, call *ast.CallExpr, ms *modSet, depth int) {
+	fc := e.cs.Funcs[e.curFn]
+	if fc == nil || depth != 0 {
+		return
+	}
+	if fn := e.staticCallee(info, call); fn != nil {
+		for _, n := range strings.Fields(fc.Options["calllog"]) {
+			if n == fn.Name() {
+				ms.heap["ghost:callN"] = IntSort
+				ms.heap["ghost:callName"] = ArrSort(IntSort, StrSort)
+				ms.heap["ghost:callArg0"] = ArrSort(IntSort, IntSort)
+				ms.heap["ghost:callArg1"] = ArrSort(IntSort, IntSort)
+			}
+		}
+		for _, n := range strings.Fields(fc.Options["retlog"]) {
+			if n == fn.Name() {
+				sig := fn.Type().(*types.Signature)
+				if sig.Results().Len() > 0 {
+					ms.heap["ghost:retlog_"+n] = e.sortOf(sig.Results().At(sig.Results().Len() - 1).Type())
+				}
+			}
+		}
+		return
+	}
+	if fc.Options["fvlog"] != "" {
+		// a call through a function value is recorded by name (option fvlog)
+		ms.heap["ghost:fvN"] = IntSort
+		ms.heap["ghost:fvName"] = ArrSort(IntSort, StrSort)
+	}
 }
 
 func (e *Engine) markWritten(info *types.Info, x ast.Expr, ms *modSet) {
@@ -1500,6 +1551,12 @@ func (e *Engine) callMods(info *types.Info, call *ast.CallExpr, ms *modSet, visi
 		}
 	}
 	fn := e.staticCallee(info, call)
+	if fn != nil && (fn.Name() == "Add" || fn.Name() == "Done") {
+		if name := wgLocalName(info, call); name != "" {
+			ms.heap[wgGhostKey(name)] = IntSort
+			return
+		}
+	}
 	if fn == nil {
 		// interface method: use the interface contract's modifies
 		if sel, ok := call.Fun.(*ast.SelectorExpr); ok {
